@@ -490,7 +490,13 @@ impl<'a> Searcher<'a> {
                     });
                 }
 
-                results.iter().enumerate().for_each(|(idx, items)| {
+                // LIMIT applies to the group rows as it does to any other rows
+                let row_limit = match self.query.limit {
+                    0 => results.len(),
+                    limit => limit as usize,
+                };
+
+                results.iter().take(row_limit).enumerate().for_each(|(idx, items)| {
                     let mut buf = WritableBuffer::new();
                     if idx > 0 {
                         let _ = self.results_writer.write_row_separator(&mut buf);
